@@ -40,7 +40,40 @@ def _since(s, m):
     return d
 
 
+def range_loop_general(interp, st, rng, fr):
+    """`for _ in range(n)` with symbolic n over a *general* (arbitrary bytes) source: the
+    variant is the number of unread bytes - every iteration must consume at least one byte or
+    raise.  The body is executed once for an arbitrary iteration; what the other iterations
+    consume is havoced.  Local state keeps what this one iteration stored (per-field
+    properties are covered by the fork over which entry the iteration read)."""
+    ctx = interp.ctx
+    lo, hi = zint(rng.lo), zint(rng.hi)
+    if not ctx.decide(hi > lo):
+        interp.block(st.orelse, fr)
+        return
+    srcs = _sources(fr)
+    if len(srcs) != 1 or not getattr(srcs[0][1], "general", False):
+        raise Undecided("loop over a symbolic range needs an invariant (not a general-clause source)")
+    src = srcs[0][1]
+    before = ctx.int_const(ctx.fresh("skipped"), 0)
+    ctx.assume(before <= zint(src.remaining()))
+    src._take(before)                 # earlier iterations
+    c0 = zint(src.consumed)
+    interp.assign(st.target, SInt(ctx.int_const(ctx.fresh("i"), 0)), fr)
+    try:
+        interp.block(st.body, fr)
+    except (BreakEx, ContinueEx):
+        raise Undecided("break/continue in a loop over a symbolic range")
+    ctx.oblige("loop/variant-decreases", zint(src.consumed) - c0 >= 1)
+    after = ctx.int_const(ctx.fresh("skipped"), 0)
+    ctx.assume(after <= zint(src.remaining()))
+    src._take(after)                  # later iterations
+    interp.block(st.orelse, fr)
+
+
 def writer_loop(interp, st, seq, fr):
+    if isinstance(seq, SRange):
+        return range_loop_general(interp, st, seq, fr)
     if not isinstance(seq, SSeq):
         raise Undecided(f"loop over {seq!r} needs an invariant")
     ctx = interp.ctx
